@@ -25,6 +25,11 @@ func nameTemplate(style string, i int) string {
 		return fmt.Sprintf("0A%XFF", i)
 	case "space":
 		return fmt.Sprintf(" %d  x", i)
+	case "rawbytes":
+		// multi-byte characters together with bytes that are not valid UTF-8
+		return fmt.Sprintf("caf\xc3\xa9-\xff-%d-\xe6\x97\xa5\xe8", i)
+	case "long":
+		return fmt.Sprintf("%0300d", i)
 	}
 	return fmt.Sprintf("f-%d", i)
 }
@@ -51,7 +56,7 @@ func loadMined() {
 	for k, u := range m {
 		var f int
 		var style string
-		if _, err := fmt.Sscanf(k, "%d/%s", &f, &style); err != nil || len(u) != 10 {
+		if _, err := fmt.Sscanf(k, "%d/%s", &f, &style); err != nil || len(u) != 12 {
 			continue
 		}
 		if universeOK(f, u) {
@@ -80,9 +85,13 @@ func capShare(b, want int) int {
 // universeOK checks the collision structure the TLC universe prescribes.
 func universeOK(fanout int, u []string) bool {
 	b := bits.TrailingZeros(uint(fanout))
-	d := make([][]int, 10)
+	d := make([][]int, 12)
 	for i := range u {
 		d[i] = digitsOf(u[i], b)
+	}
+	// names 11 and 12 share as many levels as 24 hash bits give (8 levels at fanout 8): the deepest chain we can mine
+	if shareLen(d[10], d[11]) != 24/b || d[10][0] == d[0][0] || d[10][0] == d[2][0] || d[10][0] == d[4][0] || d[10][0] == d[8][0] {
+		return false
 	}
 	// name 10 is a proper suffix of name 9 and falls into the same root bucket, away from the other groups
 	if !strings.HasSuffix(u[8], u[9]) || len(u[9]) >= len(u[8]) || d[8][0] != d[9][0] ||
@@ -130,7 +139,7 @@ func mineUniverse(fanout int, style string) []string {
 			return d[k] != base[k]
 		}
 	}
-	u := make([]string, 10)
+	u := make([]string, 12)
 	// name 1 sits in a low root bucket (index < 16): at fanouts 512/1024 its hex prefix needs two padding zeros
 	u[0] = find(func(d []int) bool { return d[0] < 16 })
 	d0 := digitsOf(u[0], b)
@@ -199,6 +208,11 @@ func mineUniverse(fanout int, style string) []string {
 			break
 		}
 	}
+	// the deepest pair
+	d8 := digitsOf(u[8], b)
+	u[10] = find(func(d []int) bool { return d[0] != d0[0] && d[0] != d2[0] && d[0] != d4[0] && d[0] != d8[0] })
+	d10 := digitsOf(u[10], b)
+	u[11] = find(share(d10, 24/b))
 	mineCache[k] = u
 	return u
 }
@@ -327,6 +341,10 @@ func init() {
 				if m%4 == 3 || m >= 48 {
 					out = append(out, append(append([]int(nil), s...), 7, 8))
 				}
+				// with the pair that shares 24 hash bits (a chain of 8 shards at fanout 8)
+				if m%16 == 5 || m == 0 || m == 63 {
+					out = append(out, append(append([]int(nil), s...), 11, 12))
+				}
 				// with the member whose proper suffix (name 10, never a member here) hashes into the same bucket
 				if m%8 == 1 || m == 0 || m == 63 {
 					out = append(out, append(append([]int(nil), s...), 9))
@@ -353,11 +371,28 @@ func init() {
 							}
 							dc := &DirCase{Fam: "dir", ID: fmt.Sprintf("sets-%d-%v-%d-%s", f, s, oi, bld), Builder: bld, Fanout: f,
 								Universe: u, Entries: ord, Links: links(ord), Open: "reify", Mode: "sets",
-								Script: fullDirScript(10, allHows)}
+								Script: fullDirScript(12, allHows)}
 							if err := runDirCase(dc, tr); err != nil {
 								return err
 							}
 						}
+					}
+				}
+			}
+		case "longnames":
+			// entry names beyond 255 bytes that agree on their first 255..300 bytes, next to short ones
+			for _, f := range parseInts(*fanouts) {
+				var u []string
+				for i := 0; i < 4; i++ {
+					u = append(u, fmt.Sprintf("%0300d", i), strings.Repeat("ü", 140)+fmt.Sprintf("-%d", i))
+				}
+				u = append(u, "short", fmt.Sprintf("%0255d", 7), fmt.Sprintf("%0256d", 8), "absent-"+strings.Repeat("y", 300))
+				ids := []int{1, 2, 3, 4, 5, 6, 7, 8, 9, 10, 11}
+				for _, bld := range []string{"sharded", "boxo", "dir"} {
+					dc := &DirCase{Fam: "dir", ID: fmt.Sprintf("longnames-%d-%s", f, bld), Builder: bld, Fanout: f, Universe: u, Entries: ids,
+						Links: links(ids), Open: "reify", Mode: "sets", Script: fullDirScript(len(u), []string{"string", "native"})}
+					if err := runDirCase(dc, tr); err != nil {
+						return err
 					}
 				}
 			}
@@ -542,7 +577,7 @@ func init() {
 			for i := 0; i < *count; i++ {
 				f := []int{8, 16, 32, 64, 128, 256, 512, 1024}[r.Intn(8)]
 				n := r.Intn(60)
-				style := styles[r.Intn(len(styles))]
+				style := append(styles, "rawbytes", "long")[r.Intn(len(styles)+2)]
 				base := r.Intn(100000)
 				var u []string
 				for j := 0; j < n+3; j++ {
